@@ -17,10 +17,9 @@ def run(tier, seed):
     pack.assume(*COMMON_ASSUME)
     pack.assume('registry invariant: uid is a bijection from the registered idx values onto [0, n) with the same domain as '
                 '_idx2model (preserved by GroupBase.add; required by the lookups)',
-                'DeviceFinder: "created at most once and reused by later rows with the same link" is not decided '
-                '(find_idx results are modelled as a fixed ghost relation during one call)')
+                'DeviceFinder: the lookup relation target -> helper is a ghost map updated by every System.add of the call')
     items = [(G.group_add('C19'),), (G.get_next_idx('C19'),), (G.one_idx2uid('C19'),), (G.group_idx2uid('C19'),),
-             (G.modeldata_add('C19'),), (G.idxparam_add('C19'),), (G.system_add('C19'),), (G.find_or_add('C19'),),
+             (G.modeldata_add('C19'),), (G.idxparam_add('C19'),), (G.system_add('C19'),), (G.find_or_add('C19'), None, G.replay_find_or_add),
              (G.set_backref_model('C19'),)]
     run_contracts(pack, items)
     bounded(pack, tier)
@@ -47,6 +46,16 @@ def bounded(pack, tier, pid='C19'):
                 pack.known_finding(k)
             continue
         pack.violation(name, {'bounded': True, 'inputs': w, 'native_cmd': 'contracts/bounded_find_idx.py'})
+    from contracts import bounded_group_lookup as BL
+    r = native_guard(pack, '%s/andes/models/group.py:GroupBase.idx2model/bounded:runs' % pid, BL.run)
+    if r is not None:
+        n3, bad = r
+        pack.bounded.append({'function': 'GroupBase.idx2model', 'kind': 'bounded (exhaustive enumeration, native)',
+                             'bound': '2 models, 3 devices; queries of length 1-2 over {int idx, str idx, 2 unknown, None}; allow_none in {F,T}',
+                             'cases': n3, 'mismatches': len(bad), 'counted_as_proved': False})
+        for w in bad[:1]:
+            pack.violation('%s/andes/models/group.py:GroupBase.idx2model/bounded:known->its-model;None-only-with-allow_none;unknown->KeyError' % pid,
+                           {'bounded': True, 'inputs': w, 'native_cmd': 'contracts/bounded_group_lookup.py'})
     r = native_guard(pack, '%s/andes/system.py:System.collect_ref/bounded:runs' % pid, BB.run)
     if r is None:
         return
